@@ -22,15 +22,19 @@ def run(chk):
         vlib.run_scripts(chk, vec, c_exe, m_exe, vec.corpus(PROP), vec.oracle)
         vlib.run_scripts(chk, vec, c_exe, m_exe, vec.fault_scripts(), vec.oracle)
         vlib.run_scripts(chk, vec, c_exe, m_exe, vec.vector_boundaries(chk.tier), vec.oracle)
-        maxn = 3 if quick else 4
-        closed = vlib.closure(chk, vec.NAME, c_exe, m_exe, ["init v0 4 3"], vec.vector_alphabet(maxn),
-                              max_depth=6 if quick else 12, max_states=1500 if quick else 40000,
+        # closure to a fixed point (the state cap is never the reason the search ends)
+        maxn, maxn2 = (2, 2) if quick else (3, 2)
+        before = chk.stats["states"]
+        closed = vlib.closure(chk, vec.NAME, c_exe, m_exe, ["init v0 4 3"], vec.vector_alphabet(maxn, maxn2),
+                              max_depth=40, max_states=10 ** 6,
                               oracle=vec.oracle, state_of=vec.canon_state)
-        chk.exhaustive = closed
-        chk.extra["scope"] = ("closure: two vectors (v0 with constructor/destructor, v1 without), 4-byte elements, "
-                              "sizes <= %d, capacities <= %d, every operation from every reachable state; closed=%s; "
-                              "boundaries: element sizes %s x with/without xtors x 4 states x {reserve,resize,at,set}"
-                              % (maxn, maxn + 1, closed, vec.ESIZES))
+        chk.exhaustive = bool(closed)
+        chk.extra["scope"] = ("closure (fixed point reached=%s, %d canonical states): two vectors (v0 with constructor/"
+                              "destructor, sizes <= %d; v1 without, sizes <= %d), 4-byte elements, every operation "
+                              "(resize/reserve/shrink/clear/rev/sort/at/set/swap, indices up to size) from every reachable "
+                              "(size, capacity, block bytes, contents, xtor flags) state; boundaries: element sizes %s x "
+                              "with/without xtors x 4 states x {reserve,resize,at,set} x the DESIGN 3.4 value set"
+                              % (closed, chk.stats["states"] - before, maxn, maxn2, vec.ESIZES))
         rnd = vec.random_scripts(chk.rng, 150 if quick else 3000, 60 if quick else 120, "vec")
         vlib.run_scripts(chk, vec, c_exe, m_exe, rnd, vec.oracle)
         if chk.mismatches and not chk.oracle_failures:
